@@ -360,7 +360,7 @@ def run_property(prop, tier, seed, only=None, jobs=0, write_evidence=True):
             from . import smt
             r = smt.run(h, known, prop)
             results.append((h, r))
-            print("[%s] %-55s %-12s queries=%d solver=%.1fs %s" % (prop, h["name"], r["status"], r["checks"], r["solver_s"], r["reason"]))
+            print("[%s] %-55s %-12s queries=%d solver=%.1fs %s %s" % (prop, h["name"], r["status"], r["checks"], r["solver_s"], r["reason"], r.get("results", "")))
 
     violations = []
     known_hits = []
